@@ -217,7 +217,12 @@ func (x *B[T]) chanView(c int) signal.C[T] {
 }
 func (x *B[T]) KeptChanSample(c, i int) uint64 { return enc(x.chanView(c).Sample(i), x.k) }
 func (x *B[T]) KeptChanSet(c, i int, v uint64) { x.chanView(c).SetSample(i, dec[T](v, x.k)) }
-func (x *B[T]) KeptChanIndex(c, i int) int     { return x.chanView(c).BufferIndex(c, i) }
+// the channel argument of C.BufferIndex is not the view's channel on purpose (the view addresses its own
+// channel whatever it is given): it rotates through other values
+func (x *B[T]) KeptChanIndex(c, i int) int {
+	args := []int{c, 0, c + 1, x.b.Channels() - 1, -1, c + 2}
+	return x.chanView(c).BufferIndex(args[(c+i)%len(args)], i)
+}
 func (x *B[T]) KeptChanShape(c int) (int, int, int) {
 	ch := x.chanView(c)
 	return ch.Channels(), ch.Length(), ch.Capacity()
@@ -365,11 +370,29 @@ type DynSlice interface {
 	Get(i int) uint64
 	Any() any
 	IsNil() bool
+	SpareIntact() bool
 }
 
 type SL[T signal.SignalTypes] struct {
 	s []T
 	k Kind
+}
+
+// every caller slice has spareCap elements of capacity behind its length, holding a sentinel: the
+// library must not touch the caller's backing array beyond the slice it was given
+const spareCap = 3
+
+func (x *SL[T]) SpareIntact() bool {
+	if x.s == nil {
+		return true
+	}
+	full := x.s[:cap(x.s)]
+	for _, v := range full[len(x.s):] {
+		if enc(v, x.k) != small(x.k, 99) {
+			return false
+		}
+	}
+	return cap(x.s) == len(x.s)+spareCap
 }
 
 func (x *SL[T]) Len() int         { return len(x.s) }
@@ -381,11 +404,14 @@ func sliceT[T signal.SignalTypes](vals []uint64, isNil bool, k Kind) DynSlice {
 	if isNil {
 		return &SL[T]{nil, k}
 	}
-	s := make([]T, len(vals))
+	back := make([]T, len(vals)+spareCap)
 	for i, v := range vals {
-		s[i] = dec[T](v, k)
+		back[i] = dec[T](v, k)
 	}
-	return &SL[T]{s, k}
+	for i := len(vals); i < len(back); i++ {
+		back[i] = dec[T](small(k, 99), k)
+	}
+	return &SL[T]{back[:len(vals)], k}
 }
 
 func NewSlice(k Kind, vals []uint64, isNil bool) DynSlice {
